@@ -1,7 +1,7 @@
 """C15 - created entities exist, and attribute data reads back what was written"""
 from ..rules import config, data, memo, forward, search
 
-DECIDES = ("create on existing / update on missing raise SpilException before any file-system effect, parents first (R-CHKEFF); set folds attribute/value whenever an attribute is named and delegates to update (R-SET); the dumped mapping is previous.update(new) (R-OVERLAY); writer and reader derive the sidecar from the Sid's own path by one pure function (R-SIDECAR); each record is a fresh dictionary, 'sid' added after loading (R-GETDATA, R-MUTDEFAULT); nothing on the data path is memoised or keeps state (R-PUREMEMO, R-NOSTATE); writer / getter thread their configuration (R-FWD). Also: a created entity is not hidden by a duplicate filter filled before the yield guards (R-DEDUP). The writer keeps nothing between calls either: no store into instance attributes or module-level containers on the write path, directly or through a callee that fills a container handed to it (R-NOSTATE, write path). The file-system listing does not answer dot-files (glob.glob) and found paths are resolved as found (R-SKIPS); no swallowed sid template (R-DEADTYPE).")
+DECIDES = ("create on existing / update on missing raise SpilException before any file-system effect, parents first (R-CHKEFF); set folds attribute/value whenever an attribute is named and delegates to update (R-SET); the dumped mapping is previous.update(new), and update() reaches _write_data before every return that does not report failure (R-OVERLAY); writer and reader derive the sidecar from the Sid's own path by one pure function (R-SIDECAR); each record is a fresh dictionary, 'sid' added after loading (R-GETDATA, R-MUTDEFAULT); nothing on the data path is memoised or keeps state (R-PUREMEMO, R-NOSTATE); writer / getter thread their configuration (R-FWD). Also: a created entity is not hidden by a duplicate filter filled before the yield guards (R-DEDUP). The writer keeps nothing between calls either: no store into instance attributes or module-level containers on the write path, directly or through a callee that fills a container handed to it (R-NOSTATE, write path). The file-system listing does not answer dot-files (glob.glob) and found paths are resolved as found (R-SKIPS); no swallowed sid template (R-DEADTYPE).")
 DOES_NOT_DECIDE = 'the history semantics (what exists when), isolation between paths at run time'
 
 
